@@ -427,6 +427,16 @@ pub fn run_c09(ctx: &Ctx) {
     idx += 1;
     judge(idx, "async/unchecked-target+typed-return".into(), false, false, "async unchecked <- u32".into(), None, &mut |inj| unsafe { inj.when_called_async_unchecked(injectorpp::async_func_unchecked!(as_u32())) }.will_return_async(injectorpp::async_return!(5u32, u32)), &mut accepted, &mut refused, &mut by_msg, &mut lifetime_outcomes);
     idx += 1;
+    // (3b) C-variadic function-pointer types (their name contains `...`): an identically typed pair is accepted, a
+    // non-variadic replacement of the same fixed part is refused. printf and scanf have the same type.
+    {
+        type V = unsafe extern "C" fn(*const libc::c_char, ...) -> libc::c_int;
+        type NV = unsafe extern "C" fn(*const libc::c_char) -> libc::c_int;
+        judge(idx, "variadic/same".into(), true, false, "unsafe extern C fn(*const c_char, ...) -> c_int <- same type".into(), None, &mut |inj| inj.when_called(injectorpp::func!(libc::printf, V)).will_execute_raw(injectorpp::func!(libc::scanf, V)), &mut accepted, &mut refused, &mut by_msg, &mut lifetime_outcomes);
+        idx += 1;
+        judge(idx, "variadic/vs-non-variadic".into(), false, false, "unsafe extern C fn(*const c_char, ...) -> c_int <- unsafe extern C fn(*const c_char) -> c_int".into(), None, &mut |inj| inj.when_called(injectorpp::func!(libc::printf, V)).will_execute_raw(injectorpp::func!(libc::puts, NV)), &mut accepted, &mut refused, &mut by_msg, &mut lifetime_outcomes);
+        idx += 1;
+    }
     // (4) the check is about declared types, every time: after a pair of functions has been accepted once, the SAME two
     // addresses presented with other declared types are still refused
     {
